@@ -17,8 +17,7 @@ import extract as X  # noqa: E402
 VERIF = os.path.dirname(os.path.dirname(os.path.abspath(__file__)))
 REPO = X.REPO
 BUILD = os.path.join(VERIF, 'build')
-CBMC_BASE = ['--no-signed-overflow-check', '--no-malloc-may-fail', '--pointer-primitive-check', '--drop-unused-functions',
-             '--object-bits', '10']
+CBMC_BASE = ['--no-signed-overflow-check', '--no-malloc-may-fail', '--pointer-primitive-check', '--drop-unused-functions']
 MEM_BYTES = 12 << 30
 CANARY = 'VERIF_REACH_CANARY'
 
@@ -28,7 +27,7 @@ class Group:
 
     def __init__(self, name, harness, entry, extract=(), enforce=None, replace=(), loops=False,
                  defines=None, cbmc=(), timeout=900, unwind=None, tags=(), instance=None,
-                 thorough_only=False, bounded=False, replay=None, nondet_static=False, note=''):
+                 thorough_only=False, bounded=False, replay=None, nondet_static=False, note='', backend=None):
         self.name = name
         self.harness = harness
         self.entry = entry
@@ -46,6 +45,7 @@ class Group:
         self.bounded = bounded      # bounded stand-in: never counted as proved
         self.replay = replay        # name of a native replay routine
         self.note = note
+        self.backend = backend      # None = SAT (minisat2); 'cvc5' | 'z3' = SMT2 back end
 
 
 def _limits():
@@ -200,6 +200,8 @@ def run_group(g, trace=False, workroot=None):
             return res
         binary = b
     cb = ['cbmc', *CBMC_BASE, *g.cbmc]
+    if g.backend:
+        cb += ['--' + g.backend]
     if g.unwind:
         cb += ['--unwind', str(g.unwind)]
     if trace:
